@@ -728,3 +728,80 @@ def _setadd(ex, a, args, kwargs, node):
         x = ex.coerce(x, a.et, "elem")
     ex.rebind(node.func.value, a, VSet(z3.SetAdd(a.t, x.t), a.et))
     return VNone()
+
+
+# ---------------------------------------------------------------------------
+# TB-sat (ghost level): a pysat WCNF as the set of worlds its HARD clauses admit.  Clauses are
+# opaque; Dc(clause) is the set of worlds (assignments of the atoms, auxiliaries projected
+# out) a clause admits -- the algebra "appending hard clauses intersects" rests on TB-tac's
+# freshness of auxiliary variables and is part of the assumed invariant Inv_es (DESIGN §5 C03).
+# ---------------------------------------------------------------------------
+Clause = z3.DeclareSort("Clause")
+LClause = L.list_theory(Clause, "Clause")
+Dc = z3.Function("Dc", Clause, L.WSet)
+DcP = L.prefix_fun("DcP", [LClause.sort], L.WSet, lambda l: L.FULL, lambda l, k, prev: L.inter(prev, Dc(LClause.at(l, k))))
+
+
+def Den(cnf):
+    """worlds admitted by a clause list"""
+    return DcP(cnf, LClause.len(cnf))
+
+
+class VClause(V):
+    def __init__(self, t):
+        self.t = t
+        self.ty = TClause
+
+
+class _TClause(T):
+    def fresh(self, name, st):
+        return VClause(st.fresh_const(name, Clause))
+
+    def sort(self):
+        return Clause
+
+    def wrap(self, t):
+        return VClause(t)
+
+
+TClause = _TClause()
+
+
+@fn("pysat.formula.WCNF", tb="TB-sat")
+def _wcnf(ex, args, kwargs, node):
+    ref = ex.st.alloc({"kind": "solver", "A": L.FULL, "pushed": [], "base": None, "wcnf": True})
+    return VRef(ref, TSolverT)
+
+
+@meth("Solver", "copy", tb="TB-sat")
+def _wcnf_copy(ex, s, args, kwargs, node):
+    o = ex.st.obj(s.ref)
+    ref = ex.st.alloc({"kind": "solver", "A": o["A"], "pushed": [], "base": None, "wcnf": True})
+    return VRef(ref, TSolverT)
+
+
+@meth("Solver", "append", tb="TB-sat")
+def _wcnf_append(ex, s, args, kwargs, node):
+    (c,) = args
+    if not isinstance(c, VClause):
+        raise Unsupported("WCNF.append of a non-clause")
+    if "weight" in kwargs:
+        return VNone()  # soft clause: the admitted worlds do not change
+    o = ex.st.obj(s.ref)
+    ex.st.update(s.ref, A=L.inter(o["A"], Dc(c.t)))
+    return VNone()
+
+
+fn("inference.tseitin_transformation:TseitinTransformation", tb="TB-py")(_mk_instance("TseitinTransformation"))
+
+
+@fn("builtins.list", tb="TB-py")
+def _list(ex, args, kwargs, node):
+    if not args:
+        return VEmptyList()
+    (x,) = args
+    if isinstance(x, VList):
+        return VList(x.t, x.et)
+    if isinstance(x, VSet):
+        return x.enum()
+    raise Unsupported("list() of this argument")
